@@ -223,8 +223,8 @@ example :
     chk { total := some 7500, useDns := true } [(3, [.startR])] = true ∧
     chk { total := some 7500 } [(3, [.startR])] = true ∧
     chk { total := some 7500, wstall := true } [(3, [.startR]), (10, [.connDone 0])] = true ∧
-    chk { total := some 7500 } [(3, [.startR]), (10, [.connDone 0]), (20, [.bytes ⟨9, false, 0, false⟩])] = true ∧
-    chk { total := some 7500 } [(3, [.startR]), (10, [.connDone 0]), (20, [.bytes ⟨40, true, 3, false⟩])] = true := by
+    chk { total := some 7500 } [(3, [.startR]), (10, [.connDone 0]), (20, [.bytes ⟨9, false, 0, false, false⟩])] = true ∧
+    chk { total := some 7500 } [(3, [.startR]), (10, [.connDone 0]), (20, [.bytes ⟨40, true, 3, false, false⟩])] = true := by
   decide +kernel
 
 /-- kernel-checked runs for the three seeded defects' scenarios (the universally quantified
@@ -240,10 +240,10 @@ example :
       [(3, [.startR]), (13, [.connDone 0]), (777, [.cancel])])
     let c2 : Cfg := { total := some 1500, closeDelim := true }
     let s2 := observe c2 (run c2 (init false)
-      [(1003, [.startR]), (1093, [.connDone 0]), (1183, [.bytes ⟨40, true, 10, false⟩])])
+      [(1003, [.startR]), (1093, [.connDone 0]), (1183, [.bytes ⟨40, true, 10, false, false⟩])])
     let c3 : Cfg := { closeDelim := true }
     let s3 := observe c3 (run c3 (init false)
-      [(3, [.startR]), (13, [.connDone 0]), (20, [.bytes ⟨40, true, 10, false⟩]), (30, [.peerEof])])
+      [(3, [.startR]), (13, [.connDone 0]), (20, [.bytes ⟨40, true, 10, false, false⟩]), (30, [.peerEof])])
     (s1.pc = .done .cancelled 777 ∧ s1.wr = .cancelled ∧ s1.slot = .none ∧ s1.tr = .closed) ∧
     (s2.pc = .done .timeout 2503 ∧ s2.slot = .none ∧ s2.tr = .closed ∧ s2.pooled = false) ∧
     (s3.pc = .done .ok 30 ∧ s3.slot = .none ∧ s3.tr = .closed ∧ s3.pooled = false) := by
@@ -259,6 +259,25 @@ example :
     let s' := run c (init false) [(3, [.startR]), (613, [.connDone 0]), (700, [.tlsDone 0])]
     s.pc = .done .connTimeout 2503 ∧ s.slot = .none ∧ s.closedSocks = 1 ∧ s'.pc = .headers ∧ s'.slot = .proto := by
   decide +kernel
+
+/-- **interim responses (K4).** In sources with the fix (`interimKeepsTimerWhenSent`), a 1xx interim
+response that arrives after the request was sent completely leaves the read timer exactly as the
+arrival of its bytes re-armed it — the wait for the final head stays bounded by sock_read; while the
+request body is still outstanding (`reqSent = false`, e.g. `100 Continue` before a long upload) the
+timer is dropped in every source, so a slow upload cannot time out spuriously. -/
+theorem interim_timer (cfg : Cfg) (s : St) (hw : ¬ (s.wait100 = true ∧ s.wr = .parked)) :
+    (Gen.C18.interimKeepsTimerWhenSent = true → s.reqSent = true → (interimStep cfg s).readT = s.readT) ∧
+    (s.reqSent = false → (interimStep cfg s).readT = none) := by
+  unfold interimStep
+  constructor
+  · intro h1 h2; simp [h1, h2, hw]
+  · intro h2; simp [h2, dropRead]; split <;> simp_all
+
+/-- after `100 Continue` with a stalled upload nothing arms the read timer until the upload resumes -/
+theorem continue_released_no_timer (cfg : Cfg) (s : St) (hs : s.reqSent = false) (hw : s.wait100 = true)
+    (hp : s.wr = .parked) (hst : cfg.wstall = true) :
+    (interimStep cfg s).readT = none ∧ (interimStep cfg s).wait100 = false ∧ (interimStep cfg s).wr = .parked := by
+  unfold interimStep; simp [hs, hw, hp, hst, dropRead]
 
 /-! ## others are unaffected -//-! ## others are unaffected -/
 
